@@ -77,6 +77,39 @@ def permute_nodes(rng, ts):
     return tables.tree_sequence()
 
 
+def unary_chain_ts(rng, ts):
+    """put a chain of unary nodes ABOVE the top coalescence of one local tree: pick a tree B and a node a
+    that is absent from B and older than B's root, add a new node u between them and the edges
+    root_B -> u -> a over B's interval.  u is unary wherever it appears, a is unary in B and an ordinary
+    node elsewhere.  Returns None when the input offers no such (B, a).  Needs allow_unary=True."""
+    import tskit
+    cands = []
+    for tree in ts.trees():
+        if tree.num_roots != 1:
+            continue
+        r = tree.root
+        present = set(tree.nodes())
+        for a in range(ts.num_nodes):
+            if a not in present and ts.nodes_time[a] > ts.nodes_time[r] and not (ts.nodes_flags[a] & tskit.NODE_IS_SAMPLE):
+                cands.append((tree.interval.left, tree.interval.right, r, a))
+    if not cands:
+        return None
+    left, right, r, a = rng.choice(cands)
+    tables = ts.dump_tables()
+    chain = rng.randint(1, 2)
+    lo, hi = ts.nodes_time[r], ts.nodes_time[a]
+    prev = r
+    for k in range(chain):
+        u = tables.nodes.add_row(flags=0, time=lo + (hi - lo) * (k + 1) / (chain + 1))
+        tables.edges.add_row(left, right, u, prev)
+        prev = u
+    tables.edges.add_row(left, right, a, prev)
+    tables.sort()
+    tables.build_index()
+    tables.compute_mutation_parents()
+    return tables.tree_sequence()
+
+
 def random_times(rng, ts, style=None):
     """arbitrary 'unconstrained' time vector for the nodes of ts"""
     n = ts.num_nodes
